@@ -89,3 +89,11 @@ package filtering
 //@ func (d *DNSFilter) listsToUpdate(filters *[]FilterYAML, force bool) (toUpd []FilterYAML)
 //@   trusted
 //@   modifies nothing
+
+// ---- C11: routes are registered through the authenticating helper with a non-empty method ----
+// (an empty method is reserved for the DNS-over-HTTPS resolver paths and skips authentication in home.httpRegister)
+//@ package-callsite functype:github.com/AdguardTeam/AdGuardHome/internal/aghhttp.RegisterFunc(method, url, handler) requires method != "" || url == "/dns-query" || url == "/dns-query/"
+//@ sweep C11 functype:github.com/AdguardTeam/AdGuardHome/internal/aghhttp.RegisterFunc
+//@ func (d *DNSFilter) RegisterFilteringHandlers()
+//@   property C11
+//@   modifies *
